@@ -14,7 +14,15 @@
  (3) replay direction: every maximal explored behaviour is executed by the real bashPrg* functions in
      every platform variant, compared after every command (output, pos, buflen, the 192 state octets);
  (4) record direction (Pattern S): seeded random command scripts of the real automaton are stepped
-     through the specification's actions (trace/Trace_Bash, cfg Trace_BashPrg).
+     through the specification's actions (trace/Trace_Bash, cfg Trace_BashPrg);
+ (5) the one-time-password state objects (sm/BotpSM: one action per botpHOTP / botpTOTP / botpOCRA Start / StepS / StepR /
+     StepV / StepG with the effect on the counter that botp.h documents).  Replay direction: TLC enumerates ALL call
+     histories of bounded length over an action alphabet (mc/MC_BotpSM: counters at the octet / 16-bit / 32-bit / 2^64
+     wrap-arounds, digits 6..8, verification with the right / an altered / the next / the previous counter's / a too short /
+     a too long password, StepS in the middle, relocation, re-Start) and predicts every output; harness/drv_botp executes
+     each history on ONE real state object and every call's outputs (password, verdict, StepG, the counter held after the
+     call) are compared.  Record direction: seeded random histories of the driver (and a sample of the replayed ones) are
+     stepped through the specification's actions (trace/Trace_Botp).
 """
 import os, json, glob, re, shutil, time
 import vlib
@@ -25,6 +33,13 @@ VARIANTS = [("rel", "BASH_64", None), ("bash32", "BASH_32", None), ("bashsse2", 
             ("bashavx2", "BASH_AVX2", "avx2"), ("bashavx512", "BASH_AVX512", "avx512f")]
 ALL_CONFIGS = [(l, d, k) for l in (128, 192, 256) for d in (1, 2) for k in (True, False)]
 CLASSES5 = ["0", "1", "b-1", "b", "b+1"]
+
+# (5) action alphabets of the botp state objects (spec/mc/MC_BotpSM.tla)
+HOTP_CORE = ["S", "R", "Vc", "Vw", "Vn", "G"]
+HOTP_FULL = ["S", "S6", "R", "Vc", "Vw", "Vn", "Vp", "Vs", "Vl", "G", "M", "Z"]
+TOTP_FULL = ["R1", "R2", "Vc1", "Vc2", "Vx", "Vw", "M", "Z"]
+OCRA_CORE = ["S", "S2", "R", "Vc", "Vw", "Vn", "G", "M"]
+OCRA_FULL = ["S", "S2", "S6", "R", "Rq", "Vc", "Vw", "Vn", "Vp", "Vs", "Vl", "Vq", "G", "M", "Z"]
 
 
 # ------------------------------------------------------------------ helpers
@@ -82,6 +97,64 @@ def case_to_script(c):
             out.append("%s %s" % (op, st))
     out.append("end")
     return "\n".join(out) + "\n"
+
+
+def t_be(limbs):
+    """time stamp: four 16-bit limbs (least significant first) -> 8 big-endian octets"""
+    return [limbs[3] >> 8, limbs[3] & 255, limbs[2] >> 8, limbs[2] & 255, limbs[1] >> 8, limbs[1] & 255, limbs[0] >> 8, limbs[0] & 255]
+
+
+def botp_cmd(h):
+    """one predicted call of a botp history -> command line of drv_botp (the arguments only)"""
+    e = h["e"]
+    if e in ("HotpStart", "TotpStart"):
+        return "%s digit=%d key=%s" % (e, h["digit"], hx(h["key"]))
+    if e == "OcraStart":
+        return "OcraStart suite=%s key=%s" % (hx(h["suite"]), hx(h["key"]))
+    if e == "HotpStepS":
+        return "HotpStepS ctr=%s" % hx(h["ctr"])
+    if e == "HotpStepV":
+        return "HotpStepV arg=%s" % hx(h["arg"])
+    if e == "TotpStepR":
+        return "TotpStepR t=%s" % hx(t_be(h["t"]))
+    if e == "TotpStepV":
+        return "TotpStepV t=%s arg=%s" % (hx(t_be(h["t"])), hx(h["arg"]))
+    if e == "OcraStepS":
+        return "OcraStepS ctr=%s p=%s s=%s" % (hx(h["ctr"]), hx(h["p"]), hx(h["s"]))
+    if e == "OcraStepR":
+        return "OcraStepR q=%s t=%s" % (hx(h["q"]), hx(t_be(h["t"])))
+    if e == "OcraStepV":
+        return "OcraStepV q=%s t=%s arg=%s" % (hx(h["q"]), hx(t_be(h["t"])), hx(h["arg"]))
+    return e            # HotpStepR, HotpStepG, OcraStepG, Move
+
+
+def botp_script(c):
+    return "case id=%s\n%s\nend\n" % (c["id"], "\n".join(botp_cmd(h) for h in c["hist"]))
+
+
+def botp_diff(pred, got):
+    """first disagreement between the predicted history and the logged one: (step (1-based), event, field) or None.
+    Every predicted field is compared; pc / got = [] means the header does not define the value."""
+    for i, h in enumerate(pred):
+        if i >= len(got):
+            return (i + 1, h["e"], "missing-line")
+        g = got[i]
+        if g.get("e") != h["e"]:
+            return (i + 1, h["e"], "event:" + str(g.get("e")))
+        for k, v in h.items():
+            if k in ("pc", "got") and v == []:
+                continue
+            if g.get(k) != v:
+                return (i + 1, h["e"], k)
+    if len(got) > len(pred):
+        return (len(pred) + 1, got[len(pred)].get("e"), "extra-line")
+    return None
+
+
+def botp_class(h):
+    """history class of a call: the event and, for a verification, the verdict the specification predicts"""
+    e = h["e"]
+    return e + ((":accept" if h.get("ok") else ":reject") if e.endswith("StepV") else "")
 
 
 def suite_candidates():
@@ -518,6 +591,275 @@ class Run:
             ctx.note_inconclusive("binding self-test (scripts): %d of %d corrupted scripts rejected" % (rej, len(tests)))
 
 
+    # ---- (5) the one-time-password state objects
+    def botp_plan(self):
+        """(name, family, cases, alphabet, depth, TLC workers).  Cases = digit (suite) * 10 + counter (time) class; the quick
+        tier takes a subset picked by the seed, the thorough tier every digit x class."""
+        s = self.ctx.seed
+        rot = lambda c: 6 + (c + s) % 3
+        if self.ctx.quick:
+            cs, ns = [1, 2, 5][s % 3], [4, 3][s % 2]
+            return [("hotp_core", "hotp", [rot(0) * 10 + 1 + s % 7], HOTP_CORE, 6, 5),
+                    ("hotp_full", "hotp", [rot(c) * 10 + c for c in range(1, 8)], HOTP_FULL, 3, 4),
+                    ("totp", "totp", [rot(c) * 10 + c for c in range(1, 6)], TOTP_FULL, 3, 3),
+                    ("ocra", "ocra", [cs * 10 + 1 + (s // 3) % 7, ns * 10 + 1], OCRA_CORE, 4, 4)]
+        return [("hotp_core", "hotp", [rot(0) * 10 + 2, rot(1) * 10 + 3], HOTP_CORE, 7, 8),
+                ("hotp_full", "hotp", [d * 10 + c for d in (6, 7, 8) for c in range(1, 8)], HOTP_FULL, 4, 8),
+                ("totp", "totp", [d * 10 + c for d in (6, 7, 8) for c in range(1, 6)], TOTP_FULL, 4, 6),
+                ("ocra_core", "ocra", [10 + 2, 20 + 3, 50 + 6, 30 + 1, 40 + 1], OCRA_CORE, 5, 8),
+                ("ocra_full", "ocra", [10 + 3, 20 + 6, 50 + 4, 30 + 1, 40 + 1], OCRA_FULL, 3, 8)]
+
+    def botp_mc(self, name, fam, cases, alpha, depth, workers):
+        cfg = self.ctx.path("botp_%s.cfg" % name)
+        with open(cfg, "w") as f:
+            f.write('SPECIFICATION MCSpec\nCONSTANTS\n Family = "%s"\n Cases = {%s}\n Alphabet = {%s}\n Depth = %d\n Seed = %d\n'
+                    ' OtpH <- OtpHTab\n OtpO <- OtpOTab\nINVARIANT TypeOK CtrShape OtpShape SessShape Emit\n'
+                    'PROPERTY P_FailKeeps P_CtrMoves P_Consumes P_GetPure P_GetCtr P_Sync\n'
+                    % (fam, ", ".join(str(c) for c in cases), ", ".join('"%s"' % a for a in alpha), depth, self.ctx.seed % 1000))
+        r = vlib.tlc("MC_BotpSM", cfg, timeout=600 if self.ctx.quick else 3000, workers=workers, quiet=True)
+        vlib.log("[botp] %s rc=%s states=%d/%d %.1fs" % (name, r.rc, r.generated, r.distinct, r.wall))
+        return r
+
+    def botp_exec(self, script, what):
+        """run histories on the real state object; returns {id: [logged lines]} or None"""
+        b = vlib.harness("drv_botp", ["drv_botp.c"], "rel")
+        p = self.ctx.path("botp_log_%s.ndjson" % what)
+        rc, _, err = vlib.run_harness(b, ["run"], stdin=script.encode(), out_path=p, timeout=900)
+        if rc in self.INFRA_RC:
+            self.ctx.note_inconclusive("drv_botp (%s) could not be run / timed out (rc=%s)" % (what, rc))
+            return None
+        logs, cur = {}, None
+        for l in open(p):
+            l = l.strip()
+            if not l.endswith("}"):
+                continue
+            x = json.loads(l)
+            if x.get("e") == "Reset":
+                cur = logs.setdefault(x["id"], [])
+            elif cur is not None:
+                cur.append(x)
+        if rc != 0:
+            self.ctx.violation("botpSM:crash:" + what, "a botp Step function crashed while a predicted history was executed (%s, rc=%d, after history %s): %s"
+                               % (what, rc, list(logs)[-1] if logs else "(first)", err[-600:]), {"what": what, "stderr": err[-3000:]})
+        return logs
+
+    def botp_compare(self, name, fam, cases, logs):
+        """every predicted output of every call against the log; one key per (family, call class, field)"""
+        groups, steps = {}, 0
+        for c in cases:
+            got = logs.get(c["id"])
+            if got is None:
+                d = (1, c["hist"][0]["e"], "history-not-executed")
+            else:
+                d = botp_diff(c["hist"], got)
+            steps += len(c["hist"])
+            if d:
+                i, e, field = d
+                h = c["hist"][i - 1] if i <= len(c["hist"]) else {"e": e}
+                groups.setdefault("botpSM:%s:%s:%s" % (fam, botp_class(h), field), []).append((i, len(c["id"]), c["id"], c, got))
+        for key, g in groups.items():
+            g.sort(key=lambda t: t[:3])
+            i, _, cid, c, got = g[0]                    # the history that fails earliest (shortest prefix) is the replay datum
+            pref = cid.split(".")[:i]
+            self.ctx.violation(key, "botp state object differs from botp.h's documented semantics at call %d (%s) of history %s: field '%s' predicted %s, "
+                               "real object %s (%d histories of run %s fail in this class; shortest failing prefix %s)"
+                               % (i, c["hist"][i - 1]["e"] if i <= len(c["hist"]) else "?", cid, key.rsplit(":", 1)[1],
+                                  c["hist"][i - 1].get(key.rsplit(":", 1)[1]) if i <= len(c["hist"]) else None,
+                                  (got[i - 1].get(key.rsplit(":", 1)[1]) if got and i <= len(got) else None), len(g), name, ".".join(pref)),
+                               json.dumps({"history": cid, "failing_call": i, "predicted": c["hist"], "logged": got,
+                                           "other_histories": [t[2] for t in g[1:30]], "script": botp_script(c),
+                                           "how": "build/bin/drv_botp-rel-* run < script; predicted by spec/mc/MC_BotpSM.tla over spec/sm/BotpSM.tla"}))
+        return steps, sum(len(g) for g in groups.values())
+
+    def botp_trace(self, rows, what, shards):
+        """record direction: logged histories stepped through BotpSM's actions (Trace_Botp), sharded at Reset lines.
+        Returns (histories accepted, lines accepted)."""
+        ctx = self.ctx
+        hs, cur = [], []
+        for r in rows:
+            if r["e"] == "Reset" and cur:
+                hs.append(cur); cur = []
+            cur.append(r)
+        if cur:
+            hs.append(cur)
+        k = max(1, min(shards, len(hs)))
+        jobs = []
+        for i in range(k):
+            part = [r for h in hs[i::k] for r in h]
+            sp = ctx.path("botp_trace_%s_%d.ndjson" % (what, i))
+            vlib.write_ndjson(sp, part)
+            jobs.append((sp, part))
+        res = vlib.parallel([(lambda j=j: vlib.tlc("Trace_Botp", env={"TRACE": j[0]}, workers=1, timeout=900, quiet=True, xmx="2g")) for j in jobs],
+                            n=min(len(jobs), vlib.NCPU))
+        nh = nl = 0
+        for (sp, part), r in zip(jobs, res):
+            self.ev.add("tlc_trace_states", r.distinct)
+            m = re.search(r'"@REJECT",\s*(\d+)', r.out)
+            if r.rc == 0 and not m:
+                nl += len(part); nh += sum(1 for x in part if x["e"] == "Reset")
+                continue
+            if m:
+                at = int(m.group(1))
+                row = part[at - 1] if at <= len(part) else {"e": "end"}
+                j = at - 1
+                while j > 0 and part[j]["e"] != "Reset":
+                    j -= 1
+                fam = next((x["e"][:4].lower() for x in part[j + 1:at] if x["e"].endswith("Start")), "botp")
+                cls = row["e"] + ((":accept" if row.get("ok") else ":reject") if row["e"].endswith("StepV") else "")
+                ctx.violation("botpSM:%s:%s:trace" % (fam, cls),
+                              "recorded history %s of a botp state object is not a behaviour of sm/BotpSM: rejected at call %d (%s) after %s"
+                              % (part[j].get("id"), at - j - 1, row["e"], [x["e"] for x in part[j + 1:at - 1]][-8:]),
+                              {"history": [brief(x) for x in part[j:at]], "how": "TRACE=<these lines as ndjson> tlc spec/trace/Trace_Botp.tla -workers 1"})
+            elif vlib.tlc_infra_failed(r):
+                ctx.note_inconclusive("trace validation of %s gave no verdict (rc=%s) %s" % (os.path.basename(sp), r.rc, (r.error or "")[-300:]))
+            else:
+                # an invariant / action property of BotpSM fails on a recorded step
+                inv = vlib.violated_property(r.out)
+                ctx.violation("botpSM:trace:" + str(inv), "a recorded history of a botp state object violates %s of sm/BotpSM (%s)" % (inv, os.path.basename(sp)),
+                              {"file": sp, "tlc": (r.violation or "")[:3000]})
+        return nh, nl
+
+    def botp_sm(self):
+        ctx = self.ctx
+        t0 = time.time()
+        plan = self.botp_plan()
+        b = vlib.harness("drv_botp", ["drv_botp.c"], "rel")
+        # record direction input: seeded random histories of the driver
+        nrand, lrand = (18, 10) if ctx.quick else (120, 24)
+        prand = ctx.path("botp_rand.ndjson")
+        rc, _, err = vlib.run_harness(b, ["rand", nrand, lrand], out_path=prand, env=self.env, timeout=300)
+        rand_rows = []
+        if rc in self.INFRA_RC:
+            ctx.note_inconclusive("drv_botp rand could not be run (rc=%s)" % rc)
+        else:
+            rand_rows = [json.loads(l) for l in open(prand) if l.strip().endswith("}")]
+            if rc != 0:
+                ctx.violation("botpSM:crash:rand", "a botp Step function crashed in a random history (rc=%d): %s" % (rc, err[-600:]), {"stderr": err[-3000:]})
+        # all TLC runs at once: the enumerations and the validation of the random histories
+        jobs = [(lambda p=p: self.botp_mc(*p)) for p in plan]
+        jobs.append(lambda: self.botp_trace(rand_rows, "rand", 6 if ctx.quick else 14) if rand_rows else (0, 0))
+        results = vlib.parallel(jobs, n=len(jobs))
+        nh, nl = results[-1]
+        runs = self.ev.cov.setdefault("botp_sm_runs", {})
+        tot_h = tot_s = tot_bad = 0
+        sample_rows, first_cases, first_logs = [], None, None
+        for (name, fam, cases_code, alpha, depth, _), r in zip(plan, results[:-1]):
+            if vlib.tlc_infra_failed(r):
+                ctx.note_inconclusive("MC_BotpSM run %s gave no verdict (rc=%s): %s" % (name, r.rc, (r.error or "")[-300:]))
+                continue
+            if r.rc != 0:
+                ctx.note_inconclusive("MC_BotpSM run %s: the specification violates its own property %s (model-level, not reported)"
+                                      % (name, vlib.violated_property(r.out)))
+                continue
+            cases = r.jsons()
+            r.out = ""; r.prints = []
+            ids = set(c["id"] for c in cases)
+            if not cases or len(ids) != len(cases):
+                ctx.note_inconclusive("MC_BotpSM run %s emitted %d histories (%d distinct ids)" % (name, len(cases), len(ids)))
+                continue
+            logs = self.botp_exec("".join(botp_script(c) for c in cases), name)
+            if logs is None:
+                continue
+            steps, nbad = self.botp_compare(name, fam, cases, logs)
+            tot_h += len(cases); tot_s += steps; tot_bad += nbad
+            self.states += r.distinct; self.transitions += r.generated
+            runs[name] = {"family": fam, "cases": cases_code, "alphabet": alpha, "depth": depth, "states": r.distinct, "transitions": r.generated,
+                          "histories": len(cases), "calls_compared": steps, "histories_disagreeing": nbad, "exhaustive": True, "wall_s": round(r.wall, 1)}
+            for c in cases:
+                for code in c["id"].split(".")[1:]:
+                    self.distinct.add("botp:%s:%s" % (fam, code))
+            # a spread sample of the executed histories also goes through the record direction
+            step = max(1, len(cases) // (4 if ctx.quick else 12))
+            for c in cases[step // 2::step]:
+                sample_rows.append({"e": "Reset", "id": c["id"]}); sample_rows += logs.get(c["id"], [])
+            if first_cases is None and fam == "hotp":
+                first_cases, first_logs = cases, logs
+            if cases:
+                c = cases[len(cases) // 2]
+                self.ev.sample({"botp_history": c["id"], "calls": [brief(h) for h in c["hist"]]}, cap=14)
+        sh, sl = self.botp_trace(sample_rows, "sample", 6 if ctx.quick else 14) if sample_rows else (0, 0)
+        self.replayed += tot_h
+        self.lines_validated += nl + sl
+        self.ev.cov["botp_histories_replayed"] = tot_h
+        self.ev.cov["botp_calls_compared"] = tot_s
+        self.ev.cov["botp_histories_disagreeing"] = tot_bad
+        self.ev.cov["botp_recorded_histories_accepted"] = nh + sh
+        self.ev.cov["botp_recorded_calls_accepted"] = nl + sl
+        self.botp_selftest(first_cases, first_logs, rand_rows)
+        vlib.log("[C03] botp state objects: %d histories / %d calls replayed, %d recorded calls accepted, %.1fs" % (tot_h, tot_s, nl + sl, time.time() - t0))
+
+    def botp_selftest(self, cases, logs, rand_rows):
+        """Binding: (replay) one corrupted logged output per kind must be reported by the comparison, the untouched log must not;
+        (record) a corrupted / dropped logged line must be rejected by Trace_Botp at that line."""
+        ctx = self.ctx
+        if cases and logs:
+            verdicts = []
+            def first(pred):
+                for c in cases:
+                    for i, h in enumerate(c["hist"]):
+                        if pred(h):
+                            return c, i
+                return None, None
+            for kind, pred in (("otp", lambda h: h["e"] == "HotpStepR"), ("pc", lambda h: h["e"] == "HotpStepV" and not h["ok"]),
+                               ("ok", lambda h: h["e"] == "HotpStepV" and h["ok"]), ("got", lambda h: h["e"] == "HotpStepG")):
+                c, i = first(pred)
+                if c is None:
+                    continue
+                got = json.loads(json.dumps(logs[c["id"]]))
+                clean = botp_diff(c["hist"], got)
+                if kind == "ok":
+                    got[i]["ok"] = not got[i]["ok"]
+                else:
+                    got[i][kind][-1] ^= 1
+                d = botp_diff(c["hist"], got)
+                verdicts.append(clean is None and d is not None and d[0] == i + 1 and d[2] == kind)
+            self.ev.cov["selftest_botp_replay_corruptions"] = len(verdicts)
+            self.ev.cov["selftest_botp_replay_detected"] = sum(verdicts)
+            if not verdicts or not all(verdicts):
+                ctx.note_inconclusive("binding self-test (botp replay): %s" % verdicts)
+        if rand_rows:
+            tests = []
+            def cut(rows, i):          # the history containing line i, up to one line after it
+                j = i
+                while j > 0 and rows[j]["e"] != "Reset":
+                    j -= 1
+                return rows[j:i + 2], i - j + 1
+            def find(pred):
+                return next((i for i, r in enumerate(rand_rows) if pred(r)), None)
+            for kind, pred in (("pc", lambda r: r["e"] == "HotpStepV" and not r["ok"]), ("otp", lambda r: r["e"] == "HotpStepR"),
+                               ("ok", lambda r: r["e"] == "OcraStepV"), ("got", lambda r: r["e"] == "HotpStepG"), ("totp", lambda r: r["e"] == "TotpStepR")):
+                i = find(pred)
+                if i is None:
+                    continue
+                a = json.loads(json.dumps(rand_rows))
+                if kind == "ok":
+                    a[i]["ok"] = not a[i]["ok"]
+                elif kind == "totp":
+                    a[i]["otp"][0] = 48 + (a[i]["otp"][0] - 47) % 10
+                elif kind == "otp":
+                    a[i]["otp"][-1] = 48 + (a[i]["otp"][-1] - 47) % 10
+                else:
+                    a[i][kind][-1] ^= 1
+                rows, at = cut(a, i)
+                tests.append((kind, rows, at))
+            i = find(lambda r: r["e"] == "HotpStepS")
+            if i is not None:
+                a = json.loads(json.dumps(rand_rows)); rows, at = cut(a, i + 1); del rows[at - 2]
+                tests.append(("dropped", rows, at - 1))
+            def one(t):
+                kind, rows, at = t
+                tp = ctx.path("selftest_botp_%s.ndjson" % kind)
+                vlib.write_ndjson(tp, rows)
+                r = vlib.tlc("Trace_Botp", env={"TRACE": tp}, workers=1, timeout=300, quiet=True, xmx="2g")
+                m = re.search(r'"@REJECT",\s*(\d+)', r.out)
+                return bool(m) and int(m.group(1)) == at
+            rej = vlib.parallel([(lambda t=t: one(t)) for t in tests], n=max(1, len(tests)))
+            self.ev.cov["selftest_botp_corrupted_histories"] = len(tests)
+            self.ev.cov["selftest_botp_histories_rejected"] = sum(rej)
+            if not tests or not all(rej):
+                ctx.note_inconclusive("binding self-test (botp trace): %s rejected at the corrupted line: %s" % ([t[0] for t in tests], rej))
+
+
 def byfirst(cases):
     return cases[0]
 
@@ -534,6 +876,9 @@ def run(ctx):
     rel = R.lines()
     R.selftest_lines(rel)
     vlib.log("[C03] one-shot lines %.1fs" % (time.time() - t0))
+
+    # (5) the botp state objects: all bounded histories replayed, random histories recorded
+    R.botp_sm()
 
     # (2)+(3) automaton: exhaustive exploration + replay
     def codes(cfgs):
@@ -612,4 +957,8 @@ def run(ctx):
               "anchored by the appendix vectors evaluated by TLC in this run")
     ev.assume("OCRA time step: 1..59 S/M, 1..48 H without leading zero (botp.h profile; RFC 6287's 0H is not admitted); "
               "the counter returned by botpOCRAStepG is compared only for suites with a counter")
+    ev.assume("botp state objects: the semantics of the Step functions is the text of include/bee2/crypto/botp.h as transcribed in spec/sm/BotpSM.tla "
+              "(StepR: password, then counter + 1 mod 2^64; StepV: counter + 1 iff the passwords coincide, else unchanged; StepG: the counter); histories "
+              "violating the header's call order / preconditions are not generated; all histories up to the stated depth over the stated alphabet are "
+              "enumerated by TLC (botp_sm_runs), longer ones are seeded random (record direction)")
     ev.assume("data lengths beyond 2*buflen + 3 octets and histories beyond the stated depths are sampled (simulation, random scripts), not enumerated")
